@@ -875,7 +875,12 @@ def inline_new_helpers(trees, inv, news):
                         if isinstance(st, (ast.Assign, ast.AugAssign, ast.Return, ast.Expr)) and getattr(st, "value", None) is not None:
                             top = st.value
                             calls = [c for c in ast.walk(top) if isinstance(c, ast.Call)]
-                            hc = [c for c in calls if c is not top and helper_call(c, scope)]
+                            # a call inside a comprehension / lambda is evaluated per element (and reads its variables): it stays where it is
+                            scoped = {id(y) for z in ast.walk(top) if isinstance(z, (ast.ListComp, ast.SetComp, ast.DictComp, ast.GeneratorExp, ast.Lambda))
+                                      for y in ast.walk(z) if y is not z}
+                            hc = [c for c in calls if c is not top and helper_call(c, scope) and id(c) not in scoped]
+                            if any(helper_call(c, scope) and id(c) in scoped for c in calls):
+                                hc = []
                             if len(hc) == 1 and not isinstance(st, ast.AugAssign):
                                 c0 = hc[0]
                                 anc = set()
@@ -1399,6 +1404,68 @@ def scale_lines(fn):
     # a statement after an expansion on the same source line cannot exist (the call was a whole statement)
 
 
+def listcomps_to_loops(trees, inv):
+    """`out = [E for T in IT if C]` bound to a local the inventory's version of the function does not have is the loop it abbreviates:
+    `out = []`, `for T in IT: if C: out.append(E)` (the comprehension's variables get fresh names when the function uses them otherwise)"""
+    notes = []
+    for mod, t in trees.items():
+        for scope, owner, fn in list(scopes(t)):
+            q = (scope + "." if scope else "") + fn.name
+            new = genuinely_new_locals(fn, mod, q, inv)
+            if not new:
+                continue
+            bound = _bound_names(fn)
+            done = []
+            for blk_owner in list(ast.walk(fn)):
+                for fld in ("body", "orelse", "finalbody"):
+                    blk = getattr(blk_owner, fld, None)
+                    if not (isinstance(blk, list) and blk and isinstance(blk[0], ast.stmt)):
+                        continue
+                    i = 0
+                    while i < len(blk):
+                        st = blk[i]
+                        if isinstance(st, ast.Assign) and len(st.targets) == 1 and isinstance(st.targets[0], ast.Name) and st.targets[0].id in new \
+                                and isinstance(st.value, ast.ListComp) and len(st.value.generators) == 1 and not st.value.generators[0].is_async:
+                            g = st.value.generators[0]
+                            tv = [y.id for y in ast.walk(g.target) if isinstance(y, ast.Name)]
+                            ren = {}
+                            for v in tv:
+                                if v in bound and any(isinstance(y, ast.Name) and y.id == v and not any(y is z for z in ast.walk(st)) for y in ast.walk(fn)):
+                                    ren[v] = v + "_c"
+
+                            class R(ast.NodeTransformer):
+                                def visit_Name(self, n):
+                                    if n.id in ren:
+                                        return ast.copy_location(ast.Name(id=ren[n.id], ctx=n.ctx), n)
+                                    return n
+                            tgt = R().visit(copy.deepcopy(g.target))
+                            for y in ast.walk(tgt):
+                                if isinstance(y, (ast.Name, ast.Tuple, ast.List)):
+                                    y.ctx = ast.Store()
+                            elt = R().visit(copy.deepcopy(st.value.elt))
+                            app = ast.Expr(value=ast.Call(func=ast.Attribute(value=ast.Name(id=st.targets[0].id, ctx=ast.Load()), attr="append", ctx=ast.Load()),
+                                                          args=[elt], keywords=[]))
+                            body = [app]
+                            for c in reversed(g.ifs):
+                                body = [ast.If(test=R().visit(copy.deepcopy(c)), body=body, orelse=[])]
+                            loop = ast.For(target=tgt, iter=g.iter, body=body, orelse=[])
+                            init = ast.Assign(targets=[ast.Name(id=st.targets[0].id, ctx=ast.Store())], value=ast.List(elts=[], ctx=ast.Load()))
+                            for nnode in (init, loop):
+                                ast.copy_location(nnode, st)
+                                for y in ast.walk(nnode):
+                                    if not hasattr(y, "lineno"):
+                                        ast.copy_location(y, st)
+                                ast.fix_missing_locations(nnode)
+                            blk[i:i + 1] = [init, loop]
+                            done.append(st.targets[0].id)
+                            i += 2
+                            continue
+                        i += 1
+            if done:
+                notes.append("list comprehensions read as loops in %s: %s" % (q, ", ".join(done)))
+    return notes
+
+
 def unwrap_bool_in_tests(tree):
     """`if bool(x):` is `if x:` - also under `not`, `and`, `or`"""
     def strip(e):
@@ -1436,6 +1503,7 @@ def canonicalise(trees, specialise=True):
     if applied:
         # the set of unknown functions shrinks by the renamed ones
         _, news = detect_function_renames(trees, inv)
+    notes += listcomps_to_loops(trees, inv)
     done = inline_new_helpers(trees, inv, news)
     for c, h in done:
         notes.append("inlined new helper %s into %s" % (h, c))
